@@ -90,6 +90,8 @@ func NewCtx(prop, tier string) (*Ctx, error) {
 	kf.Prop = prop
 	c.KF = kf
 	set, err := plugin.Build(filepath.Join(scratch, "bin"))
+	// generated code is compiled against a throw-away clone of the build cache (see plugin.GeneratedCache)
+	plugin.GeneratedCache = plugin.CloneSharedCache(filepath.Join(scratch, "gocache"))
 	if err != nil {
 		return nil, err
 	}
